@@ -201,8 +201,13 @@ unsafe fn install_seccomp(deny: &[String]) {
             prog.push(stmt(LD_W_ABS, 0));
             continue;
         }
-        prog.push(jump(JEQ_K, sysno(name) as u32, 0, 1));
-        prog.push(stmt(RET_K, ERRNO | libc::ENOSYS as u32));
+        // "name" => ENOSYS (a kernel without the call); "name=EPERM" (EACCES, EINVAL) => what a seccomp profile that predates
+        // the call answers (old container runtimes refuse unknown system calls with EPERM)
+        let (nm, err) = match name.split_once('=') {
+            Some((n, "EPERM")) => (n, libc::EPERM), Some((n, "EACCES")) => (n, libc::EACCES), Some((n, "EINVAL")) => (n, libc::EINVAL), Some((n, _)) => (n, libc::ENOSYS), None => (name.as_str(), libc::ENOSYS),
+        };
+        prog.push(jump(JEQ_K, sysno(nm) as u32, 0, 1));
+        prog.push(stmt(RET_K, ERRNO | err as u32));
     }
     prog.push(stmt(RET_K, ALLOW));
     let fprog = libc::sock_fprog { len: prog.len() as u16, filter: prog.as_mut_ptr() };
